@@ -7,7 +7,7 @@ from vf.lazy import ck, libx, common
 from vf.monitors import algos, large
 
 PROP = "C04"
-TECHNIQUE = ("runtime monitoring: raw KEMENY_SCORE feature and Consensus.kemeny_score of every returned consensus compared with the reference score of every returned ranking (statement's 1e-6), shared algorithm objects, near-tie and large-score workloads")
+TECHNIQUE = ("runtime monitoring: raw KEMENY_SCORE feature and Consensus.kemeny_score of every returned consensus compared with the reference score of every returned ranking (statement's 1e-6), shared algorithm objects, near-tie and large-score workloads; same objects again after an in-place mutation; size classes incl. scores above 2^31/1000 (vectorised reference)")
 RULE = ("cases = C03's workload (datasets D1-D10 x schemes S1-S3,S6,S7 x algorithm configurations x both values of "
         "return_at_most_one_ranking x library RNG seed); for every returned consensus the raw KEMENY_SCORE feature is read "
         "first, then Consensus.kemeny_score, and both are compared with the reference score of EVERY returned ranking; "
